@@ -73,14 +73,27 @@ let sched seed = fun (i : nat) -> n_of_int (Hashtbl.hash (seed, int_of_nat i) la
 let () = register "sha1" (function [h] -> "OK " ^ hex_of_bytes (sha1_model (bytes_of_hex h)) | _ -> "BADARGS")
 let () = register "md5" (function [h] -> "OK " ^ hex_of_bytes (md5_model (bytes_of_hex h)) | _ -> "BADARGS")
 
-(* vcmd <tree> <cwd> <content|~> <base|~> <input|~> <torrent> <seed> *)
+(* the url crate, as the typed loader consults it (Section variables host_disp / url_norm of Model/Summary.v and
+   Model/Verify.v): a host / URL text is accepted when the check found it accepted by the real parser (hooks
+   host_parse / magnet_print, asked per case by tools/props/vfy.py) and listed it; the displayed form does not
+   matter to `verify`. Without the two lists (C13, C02: torrents that carry no hostile hosts or URLs) every
+   text is accepted. *)
+let accept_listed (l : n list list) = fun (s : n list) -> if List.mem s l then Some s else None
+let accept_all = fun (s : n list) -> Some s
+let outcome_text = function
+  | Some Success -> "OK success" | Some Failed -> "OK failed" | Some Rejected -> "OK rejected"
+  | None -> "OK fuel"
+
+(* vcmd <tree> <cwd> <content|~> <base|~> <input|~> <torrent> <seed> [<accepted urls> <accepted hosts>] *)
 let () = register "vcmd" (function
   | [tree; cwd; content; base; input; tb; seed] ->
-      let r = verify_cmd sha1_model md5_model (sched (int_of_string seed)) (parse_tree tree) (bytes_of_hex cwd)
-                (opt_field content) (opt_field base) (target_field input) (bytes_of_hex tb) in
-      (match r with
-       | Some Success -> "OK success" | Some Failed -> "OK failed" | Some Rejected -> "OK rejected"
-       | None -> "OK fuel")
+      outcome_text (verify_cmd sha1_model md5_model (sched (int_of_string seed)) accept_all accept_all (parse_tree tree)
+                      (bytes_of_hex cwd) (opt_field content) (opt_field base) (target_field input) (bytes_of_hex tb))
+  | [tree; cwd; content; base; input; tb; seed; urls; hosts] ->
+      outcome_text (verify_cmd sha1_model md5_model (sched (int_of_string seed))
+                      (accept_listed (list_field bytes_of_hex hosts)) (accept_listed (list_field bytes_of_hex urls))
+                      (parse_tree tree) (bytes_of_hex cwd) (opt_field content) (opt_field base) (target_field input)
+                      (bytes_of_hex tb))
   | _ -> "BADARGS")
 
 (* vroot <cwd> <content|~> <base|~> <input|~> <name> : the resolved content root *)
@@ -97,7 +110,13 @@ let () = register "vesc" (function
       "OK " ^ (if lex_escapes (bytes_of_hex root) (list_field bytes_of_hex comps) then "1" else "0")
   | _ -> "BADARGS")
 
-(* vload <torrent> : accepted by the loader? *)
+(* vload <torrent> [<accepted urls> <accepted hosts>] : accepted by the projection / by the typed loader / extras *)
 let () = register "vload" (function
   | [tb] -> (match load (bytes_of_hex tb) with Some _ -> "OK 1" | None -> "OK 0")
+  | [tb; urls; hosts] ->
+      let hd = accept_listed (list_field bytes_of_hex hosts) and un = accept_listed (list_field bytes_of_hex urls) in
+      let b x = if x then "1" else "0" in
+      "OK " ^ b (match load (bytes_of_hex tb) with Some _ -> true | None -> false)
+      ^ " " ^ b (match load_typed hd un (bytes_of_hex tb) with Some _ -> true | None -> false)
+      ^ " " ^ b (extras hd un (bytes_of_hex tb))
   | _ -> "BADARGS")
